@@ -121,6 +121,54 @@ def check_program(name, slots, program, w, wd, sieve, stats, split_depth, primed
     return True
 
 
+CONST_NAMES = ('K', 'J', 'w')
+
+
+def work_constants(task):
+    """constants next to macro names: a constant of a namespace (written `.C` inside it) and a parameter / @-local of a macro of that namespace
+    that is merely SPELLED like it are different names - plain `C` in the body is the parameter. A parameter spelled like a constant that is
+    visible under its plain spelling (the built-in `w`, a top-level constant) cannot be told apart from it: such a macro may be refused, but if
+    it is accepted the parameter must win (the image of the inlined program), never the constant's value."""
+    from fjv.enginecheck import scratch
+    _, tier, w, _ = task
+    sieve = Sieve(PROP)
+    stats = {'assemblies': 0, 'programs': 0, 'splits': 0, 'with_collision': 0}
+    wd = scratch()
+    inlined = '100;\n101;\n3;e1\ne1:\n200;\n3;e2\ne2:\n;k1\nk1:\n3;\n9;\n5;\nloop:\n;loop\n'
+    ref = assemble_image(inlined, w, wd, 'ref')
+    assert ref[0] == 'ok', ref
+    for C, P, X, Q, top in itertools.product(CONST_NAMES, CONST_NAMES, CONST_NAMES, CONST_NAMES, (False, True)):
+        if C == 'w' and top:
+            continue   # `w = 3` at top level redefines the built-in
+        defs = (f'{C} = 3\n' if top else '') + 'ns n {\n' + ('' if top else f'    {C} = 3\n') + \
+            f'    def cell x {{\n        x;\n    }}\n    def fill {P}, v @ end {{\n        rep({P}, i) .cell v+i\n        {"" if top else "."}{C};end\n      end:\n    }}\n' \
+            f'    def mark @ {X} {{\n        ;{X}\n      {X}:\n        {"" if top else "."}{C};\n    }}\n    def put {Q}, v {{\n        v;\n        {Q};\n    }}\n}}\n'
+        calls = 'n.fill 2, 100\nn.fill 1, 200\nn.mark\nn.put 5, 9\nloop:\n;loop\n'
+        # names visible under their plain spelling inside the macros: the built-in w, and the constant itself when it is a top-level one
+        plain_constants = {'w'} | ({C} if top else set())
+        may_reject = bool({P, X, Q} & plain_constants) or (top and C in (P, X, Q))
+        stats['programs'] += 1
+        stats['with_collision'] += int(len({C, P, X, Q}) < 4)
+        for name, files in (('one file', defs + calls), ('two files', [defs, calls])):
+            got = assemble_image(files, w, wd, 'consts')
+            stats['assemblies'] += 1
+            problem = None
+            if got[0] == 'raw':
+                problem = ('outcome', 'an image or a diagnostic', got[1])
+            elif got[0] == 'rejected' and not may_reject:
+                problem = ('outcome', 'assembles (the inlined program does)', got[1])
+            elif got[0] == 'ok' and got[1] != ref[1]:
+                problem = ('image', 'the image of the inlined program', sorted(set(got[1][0].items()) ^ set(ref[1][0].items()))[:8])
+            if problem:
+                sieve.add({'kind': 'constants and macro names: the program differs from its inlining', 'class': f'constants {problem[0]}',
+                           'case': {'skeleton': 'constants', 'w': w, 'constant': C, 'top_level_constant': top, 'fill_param': P, 'mark_local': X, 'put_param': Q,
+                                    'files': name, 'text': defs + calls, 'inlined': inlined, 'may_be_refused': may_reject},
+                           'expected': problem[1], 'observed': problem[2],
+                           'summary': f'constant {"" if top else "n."}{C}, parameters {P}/{Q}, local {X}, w={w}, {name}: {problem[0]} {str(problem[2])[:120]}'})
+                break
+    return stats, sieve.result(), None, {'constants-vs-macro-names': stats['programs']}
+
+
 def work_deep(task):
     """the same argument handed down a chain of N macros (N up to just below the default depth limit), alone and through a rep at
     every level: the image equals the two-statement program `L: ;L` / its rep form, whatever the parameter is called."""
@@ -156,6 +204,8 @@ def work(task):
     from fjv import gen_macros
     if task[0] == 'deep':
         return work_deep(task)
+    if task[0] == 'constants':
+        return work_constants(task)
     tier, w, part, nparts = task
     sieve = Sieve(PROP)
     stats = {'assemblies': 0, 'programs': 0, 'splits': 0, 'with_collision': 0}
@@ -217,6 +267,7 @@ def main():
     widths = (16, 32, 64) if args.tier == 'thorough' else (16, 64)
     tasks = [(args.tier, w, p, 16) for w in widths for p in range(16)]
     tasks += [('deep', args.tier, w, d) for w in widths for d in (45, 440, 600, 850, 898)]
+    tasks += [('constants', args.tier, w, 0) for w in widths]
     total, samples, per = {}, [], {}
     for stats, res, sample, ps in pmap(work, tasks, args.jobs):
         for k, v in stats.items():
